@@ -17,10 +17,6 @@ klass('HttpRelayClient', ['RelayPoolClient'], module=M,
 extern('HTTPConnection.close', params={'self': 'HTTPConnection'})
 extern('HTTPResponse.getheaders', params={'self': 'HTTPResponse'}, returns='Any')
 extern('gevent.Timeout#cls', params={})
-extern('PermanentRelayError.__init__', params={'self': 'PermanentRelayError', 'msg': 'Any'}, modifies=['self.reply'],
-       ensures=['self.reply != None'])
-extern('TransientRelayError.__init__', params={'self': 'TransientRelayError', 'msg': 'Any'}, modifies=['self.reply'],
-       ensures=['self.reply != None'])
 extern('HttpRelayClient._parse_smtp_reply_header', params={'self': 'HttpRelayClient', 'http_res': 'HTTPResponse'},
        returns='Reply', ensures=['implies(result != None, fresh(result) and result.code is not None and len(cast(result.code, Str)) == 3)'],
        notes='HttpRelayClient._parse_smtp_reply_header assumed at its call site: the X-Smtp-Reply header as a Reply with a '
